@@ -25,7 +25,8 @@ RULE = (
     "transitions (both fold twins of the repeated hour, fold set either way, the skipped hour); non-matching Python types. Oracle: "
     "isinstance(v,T)==expected; T(v) is v if expected else TypeError; range nesting; every member of a fixed-width int, "
     "f64, duration or timestamp type is accepted by its writer and reads back equal (durations within 0.5 ms; timestamps "
-    "by instant, since aware datetimes of different zones never compare equal when one is fold-ambiguous, PEP 495). bool for "
+    "by instant, since aware datetimes of different zones never compare equal when one is fold-ambiguous, PEP 495; members whose "
+    "instant lies beyond year 9999 in UTC are the region of an open known finding: membership is asserted, read-back probed). bool for "
     "integer types is recorded, not asserted. Non-trivial = value within one unit of a limit, non-finite float or "
     "wrong-typed value; distinct by (type, value)."
 )
@@ -56,6 +57,7 @@ class T:
         self.nontrivial = set()
         self.failures = {}
         self.bool_as_int = {}
+        self.known = None
 
     def fail(self, sig, msg, case):
         if sig not in self.failures or len(msg) < len(self.failures[sig][0]):
@@ -253,6 +255,43 @@ def section_durations(t: T, ctx: Ctx):
         run()
 
 
+FINDING_ID = "K-C12-timestamps-beyond-year-9999"
+
+
+def far_probe(t: T, v) -> None:
+    """v: a TZAware member whose instant lies beyond datetime.max in UTC.  The writer must accept it (it is a member and
+    fits int64 milliseconds).  Reading back either yields the same instant (finding gone - nothing printed) or raises
+    OutOfBoundValue (the listed finding); anything else is a violation."""
+    from kio.serial import errors as E
+    from kio.serial import readers as R
+    from kio.serial import writers as W
+
+    for kind in ("datetime_i64", "nullable_datetime_i64"):
+        t.evals += 1
+        case = {"codec": kind, "value": repr(v)}
+        buf = io.BytesIO()
+        try:
+            getattr(W, f"write_{kind}")(buf, v)
+        except Exception as e:
+            t.fail(f"{kind}:writer-rejects-member:{type(e).__name__}", f"write_{kind}({v!r}) raised {e!r} for a member of the type", case)
+            continue
+        want_ms = (v - EPOCH) // MS
+        if int.from_bytes(buf.getvalue(), "big", signed=True) != want_ms:
+            t.fail(f"{kind}:member-written-wrong", f"write_{kind}({v!r}) wrote {buf.getvalue().hex()}, expected {want_ms} ms", case)
+            continue
+        buf.seek(0)
+        try:
+            back = getattr(R, f"read_{kind}")(buf)
+        except E.OutOfBoundValue:
+            t.known = f"write_{kind}({v!r}) = {want_ms} ms is accepted (the value is a TZAware member), read_{kind} of those bytes raises OutOfBoundValue"
+            continue
+        except Exception as e:
+            t.fail(f"{kind}:reader-raised:{type(e).__name__}", f"read_{kind} of write_{kind}({v!r}) raised {e!r}", case)
+            continue
+        if not (isinstance(back, datetime.datetime) and back.tzinfo is not None and (back - EPOCH) // MS == want_ms):
+            t.fail(f"{kind}:member-does-not-read-back", f"write_{kind}({v!r}) read back as {back!r}", case)
+
+
 def _ts_expected(v) -> bool:
     if not isinstance(v, datetime.datetime):
         return False
@@ -283,6 +322,20 @@ def section_timestamps(t: T, ctx: Ctx):
             cands.append(base.replace(tzinfo=None))  # naive
             cands.append(base.replace(tzinfo=_NoneOffset()))
     cands += [EPOCH - US, EPOCH - MS, EPOCH + MS, EPOCH + US]
+    # the ends of Python's datetime range, written in UTC offsets that put the INSTANT outside years 1..9999 (built
+    # directly - astimezone() cannot produce them): at the low end plain non-members (instant before the epoch) ...
+    tzp, tzm = datetime.timezone(datetime.timedelta(hours=1)), datetime.timezone(datetime.timedelta(hours=-1))
+    cands += [datetime.datetime.min.replace(tzinfo=tzp), datetime.datetime(1, 1, 1, 0, 30, tzinfo=tzp),
+              datetime.datetime.min.replace(tzinfo=datetime.timezone(datetime.timedelta(hours=14))),
+              datetime.datetime.min.replace(tzinfo=tzm), datetime.datetime(1, 1, 1, 0, 0, 0, 1000, tzinfo=tzp)]
+    # ... and at the high end members (aware, whole milliseconds, non-negative instant) whose instant lies beyond
+    # 9999-12-31T23:59:59.999Z.  Membership is asserted; whether they read back is the region of an open known finding
+    far = [datetime.datetime(9999, 12, 31, 23, 30, tzinfo=tzm), datetime.datetime.max.replace(microsecond=999000, tzinfo=tzm),
+           datetime.datetime(9999, 12, 31, 12, 0, tzinfo=datetime.timezone(datetime.timedelta(hours=-14))),
+           datetime.datetime.max.replace(microsecond=999000, tzinfo=datetime.timezone(datetime.timedelta(minutes=-1)))]
+    for v in far:
+        membership(t, "TZAware", v, True, True)
+        far_probe(t, v)
     # zones with daylight saving time: instants around each transition (both fold twins of the repeated hour, the skipped
     # hour, the same local day with the other offset), as astimezone() and datetime.now(zone) produce them, and the same
     # wall-clock fields with fold 0 and fold 1 set explicitly
@@ -346,6 +399,17 @@ def run(ctx: Ctx) -> Report:
     for sig, (msg, case) in t.failures.items():
         rep.add_failure(Failure(sig, msg, case, len(msg)))
     rep.extra["bool_as_int_recorded_not_asserted"] = t.bool_as_int
+    from ..engine import open_findings
+
+    if t.known:
+        if FINDING_ID in open_findings(ID):
+            rep.known_hits[FINDING_ID] = t.known
+        else:  # the defect reproduces but is not listed as open: a violation, not a known finding
+            rep.add_failure(Failure("datetime_i64:member-beyond-year-9999-does-not-read-back", t.known, {"codec": "datetime_i64"}, 1))
+    rep.extra["excluded_region"] = {
+        "what": "TZAware members whose instant lies beyond 9999-12-31T23:59:59.999Z (reachable only with a negative UTC offset within the "
+                "last day of year 9999) are not part of the main read-back search; 4 such values are probed (8 codec calls)",
+    }
     rep.samples = [
         {"type": "i16", "value": 32768, "expected_member": False},
         {"type": "TZAware", "value": "1970-01-01T00:00:00.001+00:00", "expected_member": True},
